@@ -401,6 +401,11 @@ func (p *Prog) resolveRoles() []string {
 		if prev, taken := canonName[fn]; taken && prev != canon {
 			return
 		}
+		for other, g := range role {
+			if g == fn && other != canon {
+				return // the function already plays another role
+			}
+		}
 		// exported API names are fixed anchors: a role never renames them (a
 		// helper inlined into an exported function simply has no role any more)
 		if fn.Object() != nil && fn.Object().Exported() && rawName(fn) != canon {
